@@ -59,6 +59,9 @@ TABLE = {
   "C17": ("Lean 4 proof over Mathlib Matrix plus an exact Rat-list executable model (third-party cholesky/svd/qr as oracles with contracts); bridge theorems list arithmetic = Matrix arithmetic",
           "Proved for all sizes and ranks: the SVD+QR fallback algebra yields L L^T = Sigma (Cholesky branch by contract); the model of compute_cholesky_for_gp_sampling incl. the overwrite flag reproduces Sigma exactly when the contracts hold and the buffer is intact (and a counter-model shows the buffer hypothesis cannot be dropped); exact residual error budget identity; Cov(m+Lz) = L L^T; GP sum covariance = sum w_i^2 Sigma_i. Tied each run by the exact rational max|L L^T - Sigma| against the untouched original, a recorded scipy trace replayed by the model, and every contract evaluated exactly.",
           "Not modelled: IEEE rounding, normality and sample moments (labelled statistical tests), U E U^T = Sigma is a hypothesis evaluated per run.", "3/C17"),
+  "C02": ("Lean 4 / Mathlib Matrix proofs plus an exact rational model with run-time-certified inverse and LDL^T; model proved equal to the Matrix expressions",
+          "Proved for all fields, sizes and inputs: the model's mean, variance (both code branches) and covariance are the closed-form conditional Gaussian with GLS coefficients; covariance symmetric and PSD (Schur complement), variance >= 0, floor laws; invariance under permutation of observations and batch shape; interpolation; prior reversion; GP-sum linear / squared-weight / PSD laws; lie data = conditioning on the augmented data set; design-matrix monomials. Hypotheses (A Ainv = 1, L D L^T = A, D > 0, A symmetric) are checked exactly on every input; the implementation is compared at all six entry points, reversed batches, a permuted copy and every lie stage within max(1e-12, 64 eps cond(A)) scale; its covariance output is certified PSD by an exact LDL^T.",
+          "IEEE rounding absorbed by the tolerance only; kernel matrices come from the library's covariance methods (C03); kernel Gram PSD is a hypothesis; gradients are C04.", "3/C02"),
 }
 
 
